@@ -26,6 +26,10 @@ var c04Pools = [][2]string{
 	{"null", "~"}, {"~", "Null"}, {"123", "2001-12-14"}, {"0x1f", "-.5"},
 }
 
+// names Markdown cannot spell (one line per item, a trailing CR belongs to the line ending)
+var c04RootOnly = &tok.Conc{Name: "c04-root-only", Chunks: map[string]string{"a": "x\ny", "b": "z\r"}, WS: " ",
+	LD: "└──", LI: "    ", MD: "├──", MI: "│   ", FinalNL: true}
+
 func c04Conc(i int) *tok.Conc {
 	p := c04Pools[i%len(c04Pools)]
 	return &tok.Conc{Name: fmt.Sprintf("c04pool%d", i), Chunks: map[string]string{"a": p[0], "b": p[1]}, WS: " ",
@@ -64,15 +68,22 @@ func checkEncoders(r *evid.Run, d *DocState, concs []*tok.Conc) {
 				r.Count("real_calls", 1)
 				checkDecoded(r, d, c, doc, route, er, o, d.Forest)
 			}
-			// From-Root, one tree per call
-			for i, t := range d.Forest {
-				o := real.OutputRoot(buildRoot(t, c), er.opt)
-				r.Count("real_calls", 1)
-				checkDecoded(r, d, c, doc, fmt.Sprintf("root-%s", er.name), er, o, d.Forest[i:i+1])
-				if (d.N+i)%3 == 0 { // the deprecated alias
-					oa := real.OutputRootAlias(buildRoot(t, c), er.opt)
+			// From-Root, one tree per call; every fourth state under names only a program can give a node (a line break
+			// inside, a trailing CR): the encoders carry them, Markdown could not
+			rootConcs := []*tok.Conc{c}
+			if d.N%4 == 0 {
+				rootConcs = append(rootConcs, c04RootOnly)
+			}
+			for _, c := range rootConcs {
+				for i, t := range d.Forest {
+					o := real.OutputRoot(buildRoot(t, c), er.opt)
 					r.Count("real_calls", 1)
-					checkDecoded(r, d, c, doc, fmt.Sprintf("root-%s/alias", er.name), er, oa, d.Forest[i:i+1])
+					checkDecoded(r, d, c, doc, fmt.Sprintf("root-%s", er.name), er, o, d.Forest[i:i+1])
+					if (d.N+i)%3 == 0 { // the deprecated alias
+						oa := real.OutputRootAlias(buildRoot(t, c), er.opt)
+						r.Count("real_calls", 1)
+						checkDecoded(r, d, c, doc, fmt.Sprintf("root-%s/alias", er.name), er, oa, d.Forest[i:i+1])
+					}
 				}
 			}
 		}
